@@ -546,7 +546,9 @@ static void coop_pass(const Scn &s, bool th, Tot &tot)
         Exec def = execute(s, T);
         if (def.out != single.out) rep().viol(fmt("C12.schedule-dependent.%s", kname[s.kind]), scnstr(s, T) + " region=-1 choices=", "default cooperative schedule differs from the single-member execution");
         int nreg = (int)def.regions.size();
-        int bound = th ? 3 : 2;
+        // thorough: three preemptions for teams of two and three, two preemptions for teams of four
+        int bound = th ? (T <= 3 ? 3 : 2) : 2;
+        if (getenv("C12_BOUND")) bound = atoi(getenv("C12_BOUND"));
         for (int r = 0; r < nreg; r++)
         {
             if (def.regions[r].team < 2) continue;
